@@ -26,6 +26,7 @@ func init() {
 			"V8 whole-call references: LazyArgumentMap.jsonPath maps the empty output id to the whole outs map (or every call site excludes the empty path). " +
 			"V9 the type-less projection jsonPath applies the remaining path to every entry of a decoded object (typed map) as it does to every array element; V7c the walked side of anyOverlap is a getLogicalFileNames result on all paths. " +
 			"V5 as a path rule: every path (every iteration) through the code that registers top-level outputs and retains inserts the nil consumer, also for arguments that already have consumers. " +
+			"V10 where the keep-alive projection has the declared type, the struct-style lookup is dominated by the failed assertion of that type to *TypedMapType; V8/V9 follow thin wrappers. " +
 			"NOT decided: whether the names found are every alias of a file, anyOverlap (file-system values).",
 		Assumptions: commonAssumptions,
 	}
@@ -73,6 +74,7 @@ func runC04(c *an.Ctx) {
 	ruleV7(c)
 	ruleV8(c)
 	ruleV9(c)
+	ruleV10(c)
 	ruleV7c(c)
 }
 
@@ -1129,7 +1131,9 @@ func ruleV8(c *an.Ctx) {
 	if fn == nil {
 		return
 	}
-	if len(fn.Params) != 2 {
+	// a thin wrapper (jsonPath(p) = typedJsonPath(p, nil, nil)) is decided on what it delegates to
+	fn = delegateOf(fn)
+	if len(fn.Params) < 2 {
 		c.Undecided("V8", "empty-path-is-whole-map@(LazyArgumentMap).jsonPath", fn.Pos(), "unexpected signature")
 		return
 	}
@@ -1172,7 +1176,7 @@ func ruleV8(c *an.Ctx) {
 		for _, s := range sites {
 			nCalls++
 			args := s.Common().Args
-			if len(args) != 2 {
+			if len(args) < 2 {
 				callersOK = false
 				continue
 			}
@@ -1186,3 +1190,40 @@ func ruleV8(c *an.Ctx) {
 }
 
 func ctx0(ctx []*ssa.Call, i int) *ssa.Call { return ctx[i] }
+
+// delegateOf follows thin wrappers: a function whose whole body is `return g(params..., extra
+// constants)` with g in the same package is represented by g (two levels at most).
+func delegateOf(fn *ssa.Function) *ssa.Function {
+	for depth := 0; depth < 2; depth++ {
+		if fn == nil || len(fn.Blocks) != 1 {
+			return fn
+		}
+		var call *ssa.Call
+		n := 0
+		ok := true
+		for _, in := range fn.Blocks[0].Instrs {
+			switch x := in.(type) {
+			case *ssa.Call:
+				call = x
+				n++
+			case *ssa.Return, *ssa.DebugRef, *ssa.MakeInterface, *ssa.ChangeInterface, *ssa.ChangeType:
+			default:
+				ok = false
+			}
+		}
+		if !ok || n != 1 || call == nil {
+			return fn
+		}
+		g := call.Call.StaticCallee()
+		if g == nil || g.Blocks == nil || g.Pkg != fn.Pkg || len(call.Call.Args) < len(fn.Params) {
+			return fn
+		}
+		for i, prm := range fn.Params {
+			if an.Strip(call.Call.Args[i]) != ssa.Value(prm) {
+				return fn
+			}
+		}
+		fn = g
+	}
+	return fn
+}
